@@ -171,8 +171,7 @@ def generate(workdir, prop, tier, rng):
 def run(prop, tier):
     t0 = time.time()
     rng = random.Random(vf.seed() * 104729 + int(prop[1:]))
-    workdir = os.path.join(vf.OUT, prop, tier)
-    os.makedirs(workdir, exist_ok=True)
+    workdir = vf.fresh_workdir(prop, tier)
     binary = vf.build_harness()
     scen, states, trans, notes = generate(workdir, prop, tier, rng)
     vf.log("; ".join(notes))
